@@ -1449,6 +1449,218 @@ Proof.
 Qed.
 
 (* ------------------------------------------------------------------ *)
+(* 5b. Iterator::nth sessions                                          *)
+(* ------------------------------------------------------------------ *)
+Section Nth.
+Context {V : Type}.
+Notation world := (world key V cstate).
+
+(* ---- borrowing iterators: WF and snd c <= len ---- *)
+Lemma iter_next_bound c (w : world) :
+  WF (self w) -> snd c <= len (self w) ->
+  wp (iter_next c)
+     (fun r w' => self w' = self w /\ snd (snd r) <= len (self w) /\
+                  match fst r with Some i => i < len (self w) | None => True end)
+     (fun _ => False) w.
+Proof.
+  intros Hw Hc. eapply wp_mono; [apply iter_next_spec; assumption | |]; cbn beta; [|tauto].
+  intros [o c'] w' [Hs Ho]. cbn [fst snd] in *. split; [exact Hs|]. destruct o as [i|].
+  - destruct Ho as (Hi & Hlt & Hc'). subst i c'. cbn [snd]. split; lia.
+  - destruct Ho as [_ Hc']. subst c'. auto.
+Qed.
+
+Lemma b_skip_spec : forall n c (w : world),
+  WF (self w) -> snd c <= len (self w) ->
+  wp (b_skip n c) (fun c' w' => self w' = self w /\ snd c' <= len (self w)) (fun _ => False) w.
+Proof.
+  induction n as [|n IH]; intros c w Hw Hc; cbn [b_skip].
+  - apply wp_ret. auto.
+  - apply wp_bind. eapply wp_mono; [apply iter_next_bound; assumption | |]; cbn beta; [|tauto].
+    intros [o c'] w1 (Hs1 & Hc' & _). cbn [fst snd] in Hc'.
+    eapply wp_mono; [apply IH; rewrite Hs1; assumption | |]; cbn beta; [|tauto].
+    intros c2 w2 [Hs2 Hc2]. rewrite Hs1 in Hs2, Hc2. auto.
+Qed.
+
+Lemma b_nth_spec : forall n c (w : world),
+  WF (self w) -> snd c <= len (self w) ->
+  wp (b_nth n c)
+     (fun r w' => self w' = self w /\ snd (snd r) <= len (self w) /\
+                  match fst r with Some i => i < len (self w) | None => True end)
+     (fun _ => False) w.
+Proof.
+  induction n as [|n IH]; intros c w Hw Hc; cbn [b_nth].
+  - apply iter_next_bound; assumption.
+  - apply wp_bind. eapply wp_mono; [apply iter_next_bound; assumption | |]; cbn beta; [|tauto].
+    intros [o c'] w1 (Hs1 & Hc' & _). cbn [fst snd] in Hc'. destruct o as [i|].
+    + eapply wp_mono; [apply IH; rewrite Hs1; assumption | |]; cbn beta; [|tauto].
+      intros r w2 (Hs2 & H2 & H3). rewrite Hs1 in Hs2, H2, H3. auto.
+    + apply wp_ret. cbn [fst snd]. auto.
+Qed.
+
+Lemma r_slot_item_spec (proj : key * V -> list N) o (w : world) :
+  WF (self w) -> match o with Some i => i < len (self w) | None => True end ->
+  wp (r_slot_item proj o) (fun _ w' => self w' = self w) (fun _ => False) w.
+Proof.
+  intros Hw Ho. destruct o as [i|]; cbn [r_slot_item].
+  - apply wp_bind. apply wp_p_ref_live; [apply WF_live; assumption|]. intros p.
+    apply wp_ret. reflexivity.
+  - apply wp_ret. reflexivity.
+Qed.
+
+Lemma keeps_iter_nth_session (proj : key * V -> list N) pre nk :
+  keeps (iter_nth_session proj pre nk).
+Proof.
+  intros w Hw. unfold iter_nth_session. apply wp_bind.
+  eapply wp_mono; [apply iter_spec; exact Hw | |]; cbn beta;
+    [|intros w' Hs; apply inv_post_refl; auto].
+  intros c w1 [Hs1 Hc]. subst c. apply wp_bind.
+  eapply wp_mono; [apply b_skip_spec; [rewrite Hs1; exact Hw | cbn [snd]; rewrite Hs1; lia] | |];
+    cbn beta; [|tauto].
+  intros c1 w2 [Hs2 Hc1]. assert (Hs2' : self w2 = self w) by congruence. rewrite Hs1 in Hc1.
+  apply wp_bind.
+  eapply wp_mono; [apply b_nth_spec; [rewrite Hs2'; exact Hw | rewrite Hs2'; exact Hc1] | |];
+    cbn beta; [|tauto].
+  intros [o c2] w3 (Hs3 & Hc2 & Ho). cbn [fst snd] in Hc2, Ho.
+  assert (Hs3' : self w3 = self w) by congruence. rewrite Hs2' in Hc2, Ho.
+  apply wp_bind.
+  eapply wp_mono; [apply r_slot_item_spec; [rewrite Hs3'; exact Hw | rewrite Hs3'; exact Ho] | |];
+    cbn beta; [|tauto].
+  intros r w4 Hs4. assert (Hs4' : self w4 = self w) by congruence.
+  apply wp_bind.
+  eapply wp_mono; [apply iter_next_bound; [rewrite Hs4'; exact Hw | rewrite Hs4'; exact Hc2] | |];
+    cbn beta; [|tauto].
+  intros [o2 c3] w5 (Hs5 & _ & Ho2). cbn [fst snd] in Ho2.
+  assert (Hs5' : self w5 = self w) by congruence. rewrite Hs4' in Ho2.
+  apply wp_bind.
+  eapply wp_mono; [apply r_slot_item_spec; [rewrite Hs5'; exact Hw | rewrite Hs5'; exact Ho2] | |];
+    cbn beta; [|tauto].
+  intros r2 w6 Hs6. apply wp_ret. apply inv_post_refl; [exact Hw | congruence].
+Qed.
+
+(* ---- drains: DrainInv ---- *)
+Lemma d_skip_spec : forall n c (w : world),
+  DrainInv c (self w) ->
+  wp (d_skip n c) (fun c' w' => DrainInv c' (self w') /\ cap (self w') = cap (self w))
+     (fun _ => False) w.
+Proof.
+  induction n as [|n IH]; intros c w HD; cbn [d_skip].
+  - apply wp_ret. auto.
+  - apply wp_bind. eapply wp_mono; [apply drain_next_spec; exact HD | |]; cbn beta; [|tauto].
+    intros [o c'] w1 (HD1 & Hc1 & _). cbn [snd] in HD1.
+    eapply wp_mono; [apply IH; exact HD1 | |]; cbn beta; [|tauto].
+    intros c2 w2 [HD2 Hc2]. split; [exact HD2 | congruence].
+Qed.
+
+Lemma d_nth_spec (E : env key V query cstate) : forall n c (w : world),
+  DrainInv c (self w) ->
+  wp (d_nth E n c)
+     (fun r w' => DrainInv (snd r) (self w') /\ cap (self w') = cap (self w))
+     (fun w' => WF (self w') /\ cap (self w') = cap (self w)) w.
+Proof.
+  induction n as [|n IH]; intros c w HD; cbn [d_nth].
+  - eapply wp_mono; [apply drain_next_spec; exact HD | |]; cbn beta; [|tauto].
+    intros r w1 (H1 & H2 & _). auto.
+  - apply wp_bind. eapply wp_mono; [apply drain_next_spec; exact HD | |]; cbn beta; [|tauto].
+    intros [o c'] w1 (HD1 & Hc1 & _). cbn [snd] in HD1. destruct o as [p|].
+    + apply wp_frame_bind; [apply frame_drop_pair | |].
+      * intros _ w2 Hs2.
+        eapply wp_mono; [apply IH; rewrite Hs2; exact HD1 | |]; cbn beta.
+        -- intros r w3 [H3 Hc3]. split; [exact H3 | congruence].
+        -- intros w3 [H3 Hc3]. split; [exact H3 | congruence].
+      * intros w2 Hs2. rewrite Hs2. split; [eapply DrainInv_WF; eauto | exact Hc1].
+    + apply wp_ret. cbn [snd]. auto.
+Qed.
+
+Lemma keeps_drain_nth_session (E : env key V query cstate) rp pre nk :
+  keeps (drain_nth_session E rp pre nk).
+Proof.
+  intros w Hw. unfold drain_nth_session. apply wp_bind.
+  eapply wp_mono; [apply drain_spec; exact Hw | |]; cbn beta;
+    [|intros w' Hs; apply inv_post_refl; auto].
+  intros c w1 (HD1 & Hc1 & _). apply wp_bind.
+  eapply wp_mono; [apply d_skip_spec; exact HD1 | |]; cbn beta; [|tauto].
+  intros c1 w2 [HD2 Hc2]. apply wp_bind.
+  eapply wp_mono; [apply d_nth_spec; exact HD2 | |]; cbn beta.
+  2:{ intros w3 [Hw3 Hc3]. unfold inv_post. split; [exact Hw3 | congruence]. }
+  intros [o c2] w3 [HD3 Hc3]. cbn [snd] in HD3. apply wp_bind.
+  eapply wp_mono; [apply drain_next_spec; exact HD3 | |]; cbn beta; [|tauto].
+  intros [o2 c3] w4 (HD4 & Hc4 & _). cbn [snd] in HD4. apply wp_bind.
+  eapply wp_mono; [apply drain_drop_spec with (c := c3); exact HD4 | |]; cbn beta.
+  - intros _ w5 (Hw5 & _ & Hc5). apply wp_ret. unfold inv_post. split; [exact Hw5 | congruence].
+  - intros w5 (Hw5 & _ & Hc5). unfold inv_post. split; [exact Hw5 | congruence].
+Qed.
+
+(* ---- consuming iterators: WF of the owned container ---- *)
+Section IntoNth.
+Context (item : key * V -> M key V cstate (list N)) (rest : key * V -> M key V cstate unit)
+        (Hitem : forall p, frame (item p)) (Hrest : forall p, frame (rest p)).
+
+Lemma keeps_i_skip : forall n, keeps (i_skip item n).
+Proof.
+  induction n as [|n IH]; cbn [i_skip].
+  - apply keeps_ret.
+  - apply keeps_bind; [apply keeps_into_iter_next|]. intros [p|]; [|apply keeps_ret].
+    apply keeps_bind; [apply frame_keeps; apply Hitem|]. intros _. exact IH.
+Qed.
+
+Lemma keeps_i_nth : forall n, keeps (i_nth item rest n).
+Proof.
+  induction n as [|n IH]; cbn [i_nth].
+  - apply keeps_bind; [apply keeps_into_iter_next|]. intros [p|]; [|apply keeps_ret].
+    apply keeps_bind; [apply frame_keeps; apply Hitem|]. intros r. apply keeps_ret.
+  - apply keeps_bind; [apply keeps_into_iter_next|]. intros [p|]; [|apply keeps_ret].
+    apply keeps_bind; [apply frame_keeps; apply Hitem|]. intros _.
+    apply keeps_bind; [apply frame_keeps; apply Hrest|]. intros _. exact IH.
+Qed.
+
+Lemma wp_keeps_bind_true {A B} (c : M key V cstate A) (f : A -> M key V cstate B) (w : world) :
+  keeps c -> WF (self w) ->
+  (forall a (w' : world), WF (self w') -> wp (f a) (fun _ _ => True) (fun _ => True) w') ->
+  wp (bind c f) (fun _ _ => True) (fun _ => True) w.
+Proof.
+  intros Hc Hw Hf. apply wp_bind. eapply wp_mono; [apply Hc; exact Hw | |]; cbn beta; [|auto].
+  intros a w' [Hw' _]. apply Hf. exact Hw'.
+Qed.
+
+Lemma into_nth_session_safe (E : env key V query cstate) pre nk (w : world) :
+  WF (self w) ->
+  wp (into_nth_session E item rest pre nk) (fun _ _ => True) (fun _ => True) w.
+Proof.
+  intros Hw. unfold into_nth_session.
+  apply wp_keeps_bind_true; [apply keeps_i_skip | exact Hw |]. intros _ w1 Hw1.
+  apply wp_keeps_bind_true; [apply frame_keeps; apply frame_get_len | exact Hw1 |]. intros l1 w2 Hw2.
+  apply wp_keeps_bind_true; [apply keeps_i_nth | exact Hw2 |]. intros r w3 Hw3.
+  apply wp_keeps_bind_true; [apply frame_keeps; apply frame_get_len | exact Hw3 |]. intros l2 w4 Hw4.
+  apply wp_keeps_bind_true; [apply keeps_i_nth | exact Hw4 |]. intros r2 w5 Hw5.
+  apply wp_keeps_bind_true; [apply frame_keeps; apply frame_get_len | exact Hw5 |]. intros l3 w6 Hw6.
+  apply wp_bind.
+  eapply wp_mono; [apply drop_map_safe; exact Hw6 | |]; cbn beta; [|auto].
+  intros _ w7 _. apply wp_ret. exact I.
+Qed.
+
+Lemma keeps_op_into_nth (E : env key V query cstate) pre nk :
+  keeps (c <- get_cap ;; old <- get_self ;; put_self (new_map c) ;;
+         '(body, _) <- swap_self old (into_nth_session E item rest pre nk) ;; ret body).
+Proof.
+  intros w Hw. apply wp_bind. apply wp_get_cap. apply wp_bind. apply wp_get_self.
+  apply wp_bind. apply wp_put_self. apply wp_bind. apply wp_swap_self. simp_w.
+  assert (Hn : inv_post w (with_self w (new_map (cap (self w))))).
+  { unfold inv_post. simp_w. split; [apply WF_new | apply cap_new]. }
+  eapply wp_mono; [apply into_nth_session_safe; simp_w; exact Hw | |]; cbn beta.
+  - intros body w2 _. apply wp_ret. unfold inv_post in *. simp_w. exact Hn.
+  - intros w2 _. unfold inv_post in *. simp_w. exact Hn.
+Qed.
+
+End IntoNth.
+End Nth.
+
+Lemma frame_into_rest sc kind p : frame (into_rest sc kind p).
+Proof.
+  unfold into_rest. destruct (N.eqb kind 1); [apply frame_drop_key|].
+  destruct (N.eqb kind 2); [apply frame_drop_val | apply frame_drop_pair].
+Qed.
+
+(* ------------------------------------------------------------------ *)
 (* 6. the history-level theorems                                       *)
 (* ------------------------------------------------------------------ *)
 Definition safe_step (x x' : xworld) (obs : list N) : Prop :=
@@ -1531,6 +1743,14 @@ Proof.
   - (* SSub *) via_s_at Hx. apply op_sub_at; apply WFx_get_s; exact Hx.
   - (* SFormat *) via_s Hx. apply keeps_format_s.
   - (* SSerde *) via_s Hx. apply keeps_op_finally. apply keeps_visit_seq.
+  - (* OIterNth *) via_m Hx. apply keeps_iter_nth_session.
+  - (* ODrainNth *) via_m Hx. apply keeps_drain_nth_session.
+  - (* OIntoNth *) via_m Hx.
+    apply keeps_op_into_nth; intros p; [apply frame_into_steps_item | apply frame_into_rest].
+  - (* SIterNth *) via_s Hx. apply keeps_iter_nth_session.
+  - (* SDrainNth *) via_s Hx. apply keeps_drain_nth_session.
+  - (* SIntoNth *) via_s Hx.
+    apply keeps_op_into_nth; intros p; [apply frame_ret | apply frame_drop_key].
   - (* OBad *) cbn [fst snd]. apply safe_step_same; [exact Hx | discriminate].
 Qed.
 
